@@ -10,6 +10,7 @@ mod bio;
 mod chan_bundle;
 mod chan_eid;
 mod chan_hex;
+mod chan_json;
 mod chan_now;
 mod chan_ops;
 mod chan_sec;
@@ -48,6 +49,9 @@ fn run_line(line: &str) -> String {
         "SCHED" => chan_now::sched(args),
         "VALIDATE" => chan_ops::validate(args),
         "OPS" => chan_ops::ops(args),
+        "JSON" => chan_json::json(args),
+        "JTOK" => chan_json::jtok(args),
+        "JSONDEC" => chan_json::jsondec(args),
         "IPPT" => chan_sec::ippt(args),
         "BIB" => chan_sec::bib(args),
         "EID" => chan_eid::eid(args),
